@@ -294,6 +294,7 @@ func (re *RuntimeEnvironment) HeartbeatReceiver(timeout time.Duration, cancel co
 	for {
 		select {
 		case <-t.C:
+			vhBeat(re, true, fullTimeout)
 			// Set the time elapsed on the re.timeTaken (taken from the lastUpdate value).
 			// We avoid using the `time.Since(start)` here since it add an extra heartbeat,
 			// require the deduction of the last fullTimeout -- involving the time.NewTimer in the
@@ -304,6 +305,7 @@ func (re *RuntimeEnvironment) HeartbeatReceiver(timeout time.Duration, cancel co
 			// Timeout reached (call cancel and terminate)
 			return
 		case <-re.heartbeat:
+			vhBeat(re, false, fullTimeout)
 			// Update the time of the last update
 			// fmt.Printf("Updated timer... time elapsed: %v \n", time.Since(start))
 			lastUpdate = time.Now()
